@@ -18,7 +18,7 @@ import ast
 from sa.cfg import expr_guards
 from sa.cfg import facts as _facts
 from sa.consteval import Folder
-from sa.model import AnalysisError, Finding, FunctionInfo, loc, names_in, src
+from sa.model import AnalysisError, Finding, FunctionInfo, loc, names_in, order_key, src
 
 
 def _is_emptiness_test(t, p):
@@ -422,6 +422,8 @@ def rule_default_kind(prog, rep, tier, scope=None):
                 target, what = node.func.value, ".%s(...)" % node.func.attr
             elif isinstance(node, ast.Call) and isinstance(node.func, ast.Name) and node.func.id == "len" and node.args:
                 target, what = node.args[0], "len(...)"
+            elif isinstance(node, ast.Call) and node.args and (prog.ext_name(node.func, node) if isinstance(node.func, (ast.Name, ast.Attribute)) else None) == "ast.parse":
+                target, what = node.args[0], "ast.parse(...)"   # takes source text: compile() raises TypeError for 0 / 5 / True
             elif isinstance(node, ast.Subscript) and not (isinstance(node.slice, ast.Constant) and isinstance(node.slice.value, str)):
                 target, what = node.value, "indexing"
             if target is None:
@@ -460,6 +462,31 @@ def rule_default_kind(prog, rep, tier, scope=None):
                         ((read_key(c.left) == key and isinstance(c.comparators[0], ast.Constant) and isinstance(c.comparators[0].value, str))
                          or (read_key(c.comparators[0]) == key and isinstance(c.left, ast.Constant) and isinstance(c.left.value, str))):
                     evidence = "compared equal to a str constant"
+            if evidence is None:
+                # a compound guard: in every alternative under which the operation is reached the default is a str, or is none of
+                # the kinds a default can be (`not (d is None or isinstance(d, (float, int, str)))`: nothing of the domain is left)
+                alts = [[]]
+                for t, pol in expr_guards(node, stop=fi.node):
+                    alts = [a + b for a in alts for b in _dnf(t, pol)][:128]
+
+                def settled(alt):
+                    excluded, not_none = set(), False
+                    for c, pol in alt:
+                        if isinstance(c, ast.Call) and isinstance(c.func, ast.Name) and c.func.id == "isinstance" and len(c.args) == 2 and read_key(c.args[0]) == key:
+                            names = {x.id for x in ast.walk(c.args[1]) if isinstance(x, ast.Name)}
+                            if pol and names and names <= {"str"}:
+                                return True
+                            if not pol:
+                                excluded |= names
+                        elif isinstance(c, ast.Call) and c.args and read_key(c.args[0]) == key and pol and isinstance(c.func, (ast.Name, ast.Attribute)) \
+                                and any(isinstance(tt, FunctionInfo) and tt.qualname in str_preds for tt in prog.resolve_expr_fn(c.func, c)):
+                            return True
+                        elif isinstance(c, ast.Compare) and len(c.ops) == 1 and isinstance(c.ops[0], ast.Is) and read_key(c.left) == key \
+                                and isinstance(c.comparators[0], ast.Constant) and c.comparators[0].value is None and not pol:
+                            not_none = True
+                    return not_none and {"int", "float", "str"} <= excluded
+                if len(alts) > 1 and all(settled(a) for a in alts):
+                    evidence = "in every alternative of the guard the default is a str (or none of the kinds a default can be)"
             where = fi
             while where.parent_fn is not None:
                 where = where.parent_fn
@@ -917,3 +944,73 @@ def rule_live_type(prog, rep, tier):
                 rep.holds("LIVE-TYPE", inst, loc(prog, st), "a class is written by its name")
     if n == 0:
         raise AnalysisError("LIVE-TYPE: no assignment of a live annotation to 'typ' found in the package")
+
+
+# ---------------------------------------------------------------------------- LIVE-SIG
+def rule_live_sig(prog, rep, tier):
+    """LIVE-SIG (C19): the reader of live objects meets callables without a docstring and callables without arguments (both are
+    in the domain: "functions, annotated or not").  Where it reads a live signature (`inspect.signature`): (first-parameter
+    clause) the first parameter is taken with a default - `next(iter(sig.parameters.values()))` raises StopIteration for `def f():`;
+    (fallback clause) a description that falls back to a dict display when there is no docstring (`ir = parse(doc) if doc else {}`)
+    is not subscripted with a key the display lacks before that key is written."""
+    from sa.cfg import facts
+    n = 0
+    for fi in prog.all_functions():
+        sig_names = {t.id for st in ast.walk(fi.node) if isinstance(st, ast.Assign) and isinstance(st.value, ast.Call) and isinstance(st.value.func, (ast.Name, ast.Attribute))
+                     and prog.ext_name(st.value.func, st.value) == "inspect.signature" for t in st.targets if isinstance(t, ast.Name)}
+        if not sig_names:
+            continue
+        # first-parameter clause
+        for c in ast.walk(fi.node):
+            if isinstance(c, ast.Call) and isinstance(c.func, ast.Name) and c.func.id == "next" and len(c.args) == 1 and not c.keywords \
+                    and any(isinstance(x, ast.Attribute) and x.attr == "parameters" and isinstance(x.value, ast.Name) and x.value.id in sig_names for x in ast.walk(c.args[0])):
+                n += 1
+                guarded = any(any(isinstance(x, ast.Attribute) and x.attr == "parameters" for x in ast.walk(a)) and p_ for t, pol in expr_guards(c, stop=fi.node) for a, p_ in facts(t, pol))
+                if guarded:
+                    rep.holds("LIVE-SIG", "%s: %s" % (prog.owner_name(fi), src(c, 50)), loc(prog, c), "under a test that there are parameters")
+                else:
+                    rep.violation(Finding(
+                        "LIVE-SIG", prog.owner_name(fi), "first-parameter-without-default",
+                        "%s takes the first parameter of a live signature with no default: a callable without arguments (`def f():`) makes it raise StopIteration "
+                        "(a RuntimeError inside gen's generator)" % src(c, 60), loc(prog, c)))
+        # fallback clause
+        for st in ast.walk(fi.node):
+            if not (isinstance(st, ast.Assign) and len(st.targets) == 1 and isinstance(st.targets[0], ast.Name)):
+                continue
+            arms = [st.value.body, st.value.orelse] if isinstance(st.value, ast.IfExp) else [st.value]
+            displays = [a for a in arms if isinstance(a, ast.Dict)]
+            if not displays or len(arms) < 2:
+                continue
+            name = st.targets[0].id
+            written = {k.value for d in displays for k in d.keys if isinstance(k, ast.Constant)}
+            pos = lambda x: (x.lineno, x.col_offset)
+            end = lambda x: (getattr(x, "end_lineno", x.lineno), getattr(x, "end_col_offset", x.col_offset))
+            later = sorted((x for x in ast.walk(fi.node) if hasattr(x, "lineno") and pos(x) > end(st)), key=pos)
+            pending = []   # (position after which the keys count as written, keys): `N.update({..})` writes after its argument was evaluated
+            for x in later:
+                for after, keys in [p_ for p_ in pending if pos(x) >= p_[0]]:
+                    written |= keys
+                pending = [p_ for p_ in pending if pos(x) < p_[0]]
+                if isinstance(x, ast.Subscript) and isinstance(x.value, ast.Name) and x.value.id == name and isinstance(x.slice, ast.Constant):
+                    if isinstance(x.ctx, ast.Store):
+                        written.add(x.slice.value)
+                    elif isinstance(x.ctx, ast.Load) and x.slice.value not in written:
+                        n += 1
+                        gs = [(a, p_) for t, pol in expr_guards(x, stop=fi.node) for a, p_ in facts(t, pol)]
+                        ok = any(isinstance(a, ast.Name) and a.id == name and p_ for a, p_ in gs) or any(
+                            isinstance(a, ast.Compare) and isinstance(a.left, ast.Constant) and a.left.value == x.slice.value and isinstance(a.ops[0], ast.In) and p_ for a, p_ in gs)
+                        if ok:
+                            rep.holds("LIVE-SIG", "%s: %s" % (prog.owner_name(fi), src(x, 40)), loc(prog, x), "guarded")
+                        else:
+                            rep.violation(Finding(
+                                "LIVE-SIG", prog.owner_name(fi), "fallback-display-lacks-key:%s" % x.slice.value,
+                                "`%s` falls back to the display %s and is then read with %s, a key the display lacks: a callable without a docstring raises KeyError"
+                                % (name, src(displays[0], 20), src(x, 30)), loc(prog, x)))
+                        written.add(x.slice.value)
+                elif isinstance(x, ast.Call) and isinstance(x.func, ast.Attribute) and x.func.attr == "update" and isinstance(x.func.value, ast.Name) and x.func.value.id == name:
+                    keys = {k.arg for k in x.keywords if k.arg} | {k.value for a in x.args if isinstance(a, ast.Dict) for k in a.keys if isinstance(k, ast.Constant)}
+                    pending.append((end(x), keys))
+                elif isinstance(x, ast.Assign) and any(isinstance(t, ast.Name) and t.id == name for t in x.targets):
+                    break   # rebound: what follows is about another value
+    if n == 0:
+        rep.ob("LIVE-SIG", "no first-parameter read without a default and no fallback display read with a missing key", "holds", "", "in the readers of live signatures")
